@@ -272,7 +272,9 @@ def pie_cases(ctx, quick):
                     oracle(ctx, op, version, 'mangled-' + mlabel, False, abstract, None, out,
                            witness={'response_hex': resp.response_bytes.hex()})
                     sok, swhy = strictly_decodable(resp.response_bytes)
-                    overrun = ' bytes, ' in swhy and 'left' in swhy         # agreed with the integrator: not a C19 finding
+                    # agreed with the integrator: a STRUCTURE length overrunning the message is tolerated (not a C19 finding);
+                    # a primitive announcing more value bytes than are present is not
+                    overrun = ' bytes, ' in swhy and 'left' in swhy and first_overrun(resp.response_bytes) == 1
                     unchecked_length = 'type 6 must have length' in swhy   # Boolean.read ignores its length field
                     if not sok and out[0] == 'return' and (overrun or (
                             unchecked_length and
@@ -812,6 +814,69 @@ def strictly_decodable(bs):
     return True, ''
 
 
+def first_overrun(bs, off=0, end=None):
+    """Type of the first item (depth first) whose announced value does not fit into its container, or None."""
+    end = len(bs) if end is None else end
+    while off < end:
+        if off + 8 > end:
+            return 0
+        ty = bs[off + 3]
+        ln = int.from_bytes(bs[off + 4:off + 8], 'big')
+        if off + 8 + ln + (-ln) % 8 > end:
+            return ty
+        if ty == 1:
+            r = first_overrun(bs, off + 8, off + 8 + ln)
+            if r is not None:
+                return r
+        off += 8 + ln + (-ln) % 8
+    return None
+
+
+def last_leaf(bs):
+    """(offsets of the enclosing structure headers, offset of the last primitive item's header) of a TTLV message."""
+    stack, off, end = [], 0, len(bs)
+    while True:
+        items = D._items(bs, off, end)
+        if not items:
+            return stack, None
+        o, tag, tot = items[-1]
+        if bs[o + 3] == 1:
+            stack.append(o)
+            ln = int.from_bytes(bs[o + 4:o + 8], 'big')
+            off, end = o + 8, o + 8 + ln
+            if ln == 0:
+                return stack, None
+        else:
+            return stack, o
+
+
+def tail_corruptions(frame, rng):
+    """Corruptions that keep the outer framing consistent: the length field of the FINAL primitive item is enlarged / reduced
+    (enclosing lengths untouched: they still match the bytes present), or the tail of its value is cut off and every
+    enclosing length repaired."""
+    out = []
+    stack, leaf = last_leaf(frame)
+    if leaf is None:
+        return out
+    ty = frame[leaf + 3]
+    ln = int.from_bytes(frame[leaf + 4:leaf + 8], 'big')
+
+    def setlen(bs, o, v):
+        return bs[:o + 4] + int(v).to_bytes(4, 'big') + bs[o + 8:]
+    for k in (1, 8, 9, 64, 65536):
+        out.append(('type%d-length+%d' % (ty, k), setlen(frame, leaf, ln + k)))
+    for k in (1, 8):
+        if ln - k >= 0:
+            out.append(('type%d-length-%d' % (ty, k), setlen(frame, leaf, ln - k)))
+    padded = ln + (-ln) % 8
+    for t in sorted({1, 8, padded - 1, padded} & set(range(1, padded + 1))):
+        cut = frame[:len(frame) - t]
+        for o in stack:
+            cut = setlen(cut, o, int.from_bytes(cut[o + 4:o + 8], 'big') - t)
+        out.append(('type%d-value-cut-%d-lengths-repaired' % (ty, t), cut))
+    return out
+
+
 def value_corruptions(frame, rng, per_kind=2):
     """[(label, corrupted frame)]: single VALUE bytes (or padding bytes) changed, every header/length untouched."""
     out = []
@@ -867,7 +932,7 @@ def corrupt_value_cases(ctx, quick):
                 ok, why = strictly_decodable(frame)
                 if not ok:
                     raise D.HarnessError('the uncorrupted scripted response is not strictly decodable: ' + why)
-                for clabel, bad in value_corruptions(frame, rng, 1 if quick else 3):
+                for clabel, bad in value_corruptions(frame, rng, 1 if quick else 3) + tail_corruptions(frame, rng):
                     if bad == frame:
                         continue
                     ok, why = strictly_decodable(bad)
